@@ -1,7 +1,7 @@
 ---- MODULE GmresCatalog ----
 \* Stub used only for syntax checking (setup.sh); the real module is generated on every run of ./check C13
 EXTENDS Integers, Sequences
-GCases == <<[id |-> "stub", kdim |-> 1, wide |-> FALSE,
+GCases == <<[id |-> "stub", kdim |-> 1, wide |-> FALSE, hom |-> TRUE,
              A |-> [r |-> 1, c |-> 1, d |-> 1, e |-> <<<<<<2, 0>>>>>>],
              b |-> [r |-> 1, c |-> 1, d |-> 1, e |-> <<<<<<1, 0>>>>>>],
              x0 |-> [r |-> 1, c |-> 1, d |-> 1, e |-> <<<<<<0, 0>>>>>>]]>>
